@@ -8,7 +8,7 @@ import z3
 from .. import load
 from ..findings import regions_for
 from ..sarray import NPProxy
-from ..sstr import SDecimal, SStr, install_format_hooks, parse, sym_format
+from ..sstr import SDecimal, SStr, install_format_hooks, parse, sym_format, sym_round
 from ..values import SInt
 
 PROPERTY = "C20"
@@ -46,7 +46,7 @@ def configs(tier, seed):
 
 def H_readable(ctx, cfg):
     install_format_hooks()
-    utils = load.patch("utils", format=sym_format)
+    utils = load.patch("utils", format=sym_format, round=sym_round)
     count = SInt.var("count", "int")
     ctx.assume(z3.And(count.e >= cfg["lo"], count.e < cfg["hi"]))
     ctx.input("count", count.e)
@@ -80,7 +80,7 @@ def H_readable(ctx, cfg):
 
 def H_stats(ctx, cfg):
     install_format_hooks()
-    utils = load.patch("utils", format=sym_format)
+    utils = load.patch("utils", format=sym_format, round=sym_round)
     printed = []
     logged = []
     def rc(x):      # readable_count itself is decided by harness 'readable'
